@@ -309,6 +309,7 @@ pub fn generate_soak(seed: u64) -> RunSpec {
         late: None,
         jumps: vec![],
         exit_list_first: false,
+        env_plan: 0,
     }
 }
 
@@ -808,5 +809,10 @@ pub fn generate(seed: u64, flavor: &str) -> RunSpec {
         late,
         jumps,
         exit_list_first: rng.chance(50, 100),
+        env_plan: if rng.chance(30, 100) {
+            mix(seed, 0xE2_0000) | 1
+        } else {
+            0
+        },
     }
 }
